@@ -25,7 +25,8 @@ LEVEL = 'model_checking'
 TECHNIQUE = 'explicit-state BFS over operation histories on real containers/models/linkers with canonical-observation state matching; invariant on every state, reference dict on every transition'
 RULE = ('BFS to depth 2 (quick) / 3 (thorough) over ~400 operations (9 operation kinds x names {existing float/int/str/bool, unknown, near-miss, new} x '
         '27 operand shapes) on 3 object kinds; states deduplicated by canonical observation; traces = transitions whose stored result was compared '
-        'with the reference dict; plus, under strict=True, every edit-distance-1 near-miss of every variable, every name resolvable on the class and every private slot name (hint compared with a difflib reference); non-trivial = transition that changes the observation or raises')
+        'with the reference dict; plus, under strict=True, every edit-distance-1 near-miss of every variable, every name resolvable on the class and every private slot name (hint compared with a difflib reference); non-trivial = transition that changes the observation or raises'
+        " Label slices whose bound is a falsy label (0, '', 0.0) inside the span: 4 spans x 2 objects x 25 bound pairs, read and assignment.")
 ASSUMPTIONS = [
     'operands NumPy broadcasts (length-1, (1,n), (n,1)) may succeed or raise: only the invariant is demanded',
     'bulk operations (values=, replace_values with several names) that raise are only required to keep the invariant',
@@ -616,6 +617,57 @@ def run_strict_existing(case):
     return out
 
 
+def run_strict_toggle(case):
+    """strict given to the constructor, then switched by attribute: off (new attributes are accepted), on again (they are not), as
+    for an object that was made strict by attribute in the first place."""
+    kind, first = case['kind'], case['first']
+    span = list(LABELS)
+    try:
+        if kind == 'container':
+            obj = VectorContainer(span, strict=first)
+            obj.add_variable('A', 1.0)
+        elif kind == 'model':
+            obj = _MODEL(span, strict=first)
+        else:
+            obj = BaseLinker({'m': _MODEL(span)}, strict=first) if kind == 'linker-kw' else None
+    except Exception as e:
+        return [('strict-toggle:constructor:%s' % type(e).__name__, 'an object', repr(e)[:100], 'strict= refused by the constructor')]
+    if obj is None:
+        return []
+    out = []
+    flag = first
+    for step, new in enumerate([not first, first, not first, True, True, False]):
+        try:
+            obj.strict = new
+            flag = new
+        except Exception as e:
+            out.append(('strict-toggle:blocked', 'strict = %r accepted' % new, [step, type(e).__name__, str(e)[:100]], 'the strict flag of an object built with strict=%r cannot be switched by attribute' % first))
+            break
+        if bool(obj.strict) != flag:
+            out.append(('strict-toggle:not-stored', flag, bool(obj.strict), 'the strict flag reads back differently'))
+            break
+        name = 'fresh%d' % step
+        try:
+            setattr(obj, name, 1)
+            accepted = True
+        except AttributeError:
+            accepted = False
+        except Exception as e:
+            out.append(('strict-toggle:new-attribute:%s' % type(e).__name__, 'AttributeError or accepted', repr(e)[:100], 'unexpected exception class'))
+            break
+        if accepted == flag:
+            out.append(('strict-toggle:new-attribute', 'refused' if flag else 'accepted', 'accepted' if accepted else 'refused', 'with strict=%r a new attribute is %s' % (flag, 'accepted' if accepted else 'refused')))
+            break
+        if 'A' not in obj.index:
+            continue
+        try:
+            obj.A = 2.0 + step   # updates of existing names keep working
+        except Exception as e:
+            out.append(('strict-toggle:update-blocked', 'accepted', repr(e)[:100], 'an existing variable cannot be assigned'))
+            break
+    return out
+
+
 def blocks(tier, seed):
     """Level-synchronous BFS: earlier levels are completed here (in parallel), the last level is returned as blocks."""
     global _PRIOR, _FRONT
@@ -641,11 +693,122 @@ def blocks(tier, seed):
     _PRIOR.frontier = {}
     _PRIOR.states = len(seen)
     step = max(1, len(frontier) // 64)
-    return [{'kind': 'expand', 'lo': j, 'hi': min(j + step, len(frontier))} for j in range(0, len(frontier), step)] + [{'kind': 'strict-names', 'object': k, 'part': p, 'parts': 4} for k in _KINDS for p in range(4)]
+    return [{'kind': 'expand', 'lo': j, 'hi': min(j + step, len(frontier))} for j in range(0, len(frontier), step)] + [{'kind': 'strict-names', 'object': k, 'part': p, 'parts': 4} for k in _KINDS for p in range(4)] + [{'kind': 'falsy-slices'}]
+
+
+FALSY_SPANS = {'int': [-1, 0, 1, 2], 'str': ['b', '', 'a', 'c'], 'float': [2.5, 0.0, -1.0, 3.0], 'mixed': ['x', 0, 7, '']}
+
+
+def run_falsy_slice(case):
+    """A label that is falsy (0, '', 0.0) away from the edges of the span, used as a bound of a (name, label-slice) read or assignment."""
+    labels = FALSY_SPANS[case['span']]
+    n = len(labels)
+    a, b = case['bounds']
+    out = []
+    if case['kind'] == 'container':
+        c = VectorContainer(list(labels))
+        c.add_variable('A', [1.5, 2.5, 3.5, 4.5])
+        c.add_variable('K', [1, 2, 3, 4])
+    else:
+        c = _MODEL(list(labels), A=[1.5, 2.5, 3.5, 4.5], K=[1.0, 2.0, 3.0, 4.0])
+    pa = 0 if a is None else a
+    pb = n - 1 if b is None else b
+    sl = slice(None if a is None else labels[a], None if b is None else labels[b])
+    for name in ('A', 'K'):
+        before = c[name].copy()
+        try:
+            got = c[name, sl]
+        except Exception as e:
+            out.append(('falsy-label-slice:get:%s' % type(e).__name__, before[pa:pb + 1].tolist(), repr(e)[:100], 'a label slice with a falsy bound cannot be read'))
+            continue
+        if np.asarray(got).tolist() != before[pa:pb + 1].tolist():
+            out.append(('falsy-label-slice:get', before[pa:pb + 1].tolist(), np.asarray(got).tolist(), 'a label slice with a falsy bound reads other cells'))
+        want = before.copy()
+        want[pa:pb + 1] = 9
+        try:
+            c[name, sl] = 9
+        except Exception as e:
+            out.append(('falsy-label-slice:set:%s' % type(e).__name__, want.tolist(), repr(e)[:100], 'a label slice with a falsy bound cannot be assigned'))
+            continue
+        after = c[name]
+        if after.shape != before.shape or after.dtype != before.dtype or after.tolist() != want.tolist():
+            out.append(('falsy-label-slice:set', [want.tolist(), str(before.dtype)], [after.tolist(), str(after.dtype)], 'a label-slice assignment with a falsy bound stored other cells, or changed length / dtype'))
+    return out
+
+
+def run_sharing(case):
+    """An assignment stores values, not the operand: after a series was assigned from an array (a sibling variable's, or one the caller
+    keeps), writes to either side leave the other unchanged - 'every series unchanged' but the one assigned to."""
+    obj = build(case['kind'])
+    n = len(obj.span)
+    out = []
+    try:
+        obj.add_variable('N1', 0.0)
+        obj.add_variable('N2', [0.5 * k for k in range(n)])
+    except Exception as e:
+        return [('sharing:setup:%s' % type(e).__name__, 'two float variables', repr(e)[:100], 'cannot add variables')]
+    held = np.array([10.0 + k for k in range(n)])
+    source = obj['N2'] if case['source'] == 'sibling' else held
+    path = case['path']
+    try:
+        if path == 'setattr':
+            obj.N1 = source
+        elif path == 'setitem':
+            obj['N1'] = source
+        elif path == 'replace_values':
+            obj.replace_values(N1=source)
+        elif path == 'label-slice':
+            obj['N1', obj.span[0]:obj.span[-1]] = source
+        elif path == 'add_variable':
+            obj.add_variable('N3', source)
+        else:
+            raise ValueError(path)
+    except Exception as e:
+        return [('sharing:%s:%s' % (path, type(e).__name__), 'accepted', repr(e)[:100], 'a right-length float array is refused')]
+    target = 'N3' if path == 'add_variable' else 'N1'
+    want = np.array(source, dtype=float).copy()
+    # write to the source in place, then through the object
+    source[0] = -99.0
+    if case['source'] == 'sibling':
+        obj['N2', obj.span[-1]] = -77.0
+    if obj[target].tolist() != want.tolist():
+        out.append(('sharing:%s:%s' % (path, case['source']), want.tolist(), obj[target].tolist(), 'a series assigned from an array changes when the array is written to afterwards'))
+        return out
+    before_src = np.array(source).copy()
+    obj[target, obj.span[1]] = 123.0
+    if np.array(source).tolist() != before_src.tolist():
+        out.append(('sharing:%s:%s:back' % (path, case['source']), before_src.tolist(), np.array(source).tolist(), 'a write to the series reaches the array it was assigned from'))
+    return out
 
 
 def run_block(block, tier, seed):
     acc = Acc()
+    if block['kind'] == 'falsy-slices':
+        for kind in ('container', 'model', 'linker-kw'):
+            for first in (True, False):
+                case = {'kind': kind, 'first': first, 'family': 'strict-toggle'}
+                acc.evaluations += 1
+                acc.nontrivial += 1
+                for key, exp, obs, what in run_strict_toggle(case):
+                    acc.violation(key, case, exp, obs, what)
+        for kind in _KINDS:
+            for source in ('sibling', 'caller'):
+                for path in ('setattr', 'setitem', 'replace_values', 'label-slice', 'add_variable'):
+                    case = {'kind': kind, 'source': source, 'path': path, 'family': 'sharing'}
+                    acc.evaluations += 1
+                    acc.nontrivial += 1
+                    for key, exp, obs, what in run_sharing(case):
+                        acc.violation(key, case, exp, obs, what)
+        for kind in ('container', 'model'):
+            for span in FALSY_SPANS:
+                for a in (None, 0, 1, 2, 3):
+                    for b in (None, 0, 1, 2, 3):
+                        case = {'kind': kind, 'span': span, 'bounds': [a, b], 'family': 'falsy-slices'}
+                        acc.evaluations += 1
+                        acc.nontrivial += 1
+                        for key, exp, obs, what in run_falsy_slice(case):
+                            acc.violation(key, case, exp, obs, what)
+        return acc
     if block['kind'] == 'strict-names':
         for i, name in enumerate(strict_names(block['object'])):
             if i % block['parts'] != block['part']:
@@ -681,6 +844,12 @@ def run_block(block, tier, seed):
 
 
 def run_one(case):
+    if case.get('family') == 'falsy-slices':
+        return run_falsy_slice(case)
+    if case.get('family') == 'sharing':
+        return run_sharing(case)
+    if case.get('family') == 'strict-toggle':
+        return run_strict_toggle(case)
     if case.get('family') == 'strict-names':
         return run_strict_name(case)
     if case.get('family') == 'strict-existing':
